@@ -553,7 +553,7 @@ def unscaled(c):
 
 def plan_scaled(chunk, counter, quick):
     """scaled copies of the (already evaluated) base cases of a chunk.  quick: one down-scale and one up-scale per
-    case, cycling so that every generator sees all five; thorough: all five.  Randomized solver: its Gram-Schmidt loop
+    case, cycling so that every generator sees all five; thorough: a third one.  Randomized solver: its Gram-Schmidt loop
     has an ABSOLUTE cut-off (norm < 1e-4: known finding F36), so a down-scale is admissible only while the smallest
     replayed Gram-Schmidt norm stays above it; an inadmissible down-scale is replaced by the most negative admissible
     exponent (a boundary-aimed case just above the cut-off)."""
@@ -564,7 +564,9 @@ def plan_scaled(chunk, counter, quick):
         res = c.get("_res")
         if res is None or res.get("status") != "ok":
             continue
-        exps = SCALE_EXPS if not quick else [SCALE_DOWN[t % len(SCALE_DOWN)], SCALE_UP[t % len(SCALE_UP)]]
+        exps = [SCALE_DOWN[t % len(SCALE_DOWN)], SCALE_UP[t % len(SCALE_UP)]]
+        if not quick:
+            exps.append(SCALE_EXPS[(t // 2) % len(SCALE_EXPS)])
         step = 2 if c["meth"] == "kpca" else 1
         chosen = []
         for e in exps:
@@ -861,6 +863,7 @@ def eval_e2e(ctx, exe, mexe, cases, tab, stats, report=True):
                 or (B[0], B[1]) != (n, n) or (refvecs[0], refvecs[1]) != (n, n)
                 or refvals[0] != n or refsqrt[0] != n
                 or any(x is None for row in refvecs[2] for x in row)
+                or any(x is None for row in B[2] for x in row)
                 or any(x[0] is None for x in refvals[2]) or any(x[0] is None for x in refsqrt[2])):
             viol(i, "the routines that assemble the solver input threw, printed garbage or produced NaN: %s" % r.X)
             continue
@@ -1387,7 +1390,7 @@ def run(ctx):
     hist = {}
     for c in cases:
         key = c["gen"].split(":")[0].split("@")[0] + ("/" + c["solver"] if "solver" in c else "") + \
-            ("@2^%d" % c["scale_exp"] if c.get("scale_exp") else "")
+            (("@2^%d" % c["scale_exp"] if c["scale_exp"] in SCALE_EXPS else "@cutoff-boundary") if c.get("scale_exp") else "")
         hist[key] = hist.get(key, 0) + 1
     sizes = {}
     for c in cases:
@@ -1403,7 +1406,7 @@ def run(ctx):
              "linear/Gaussian/polynomial kernels; Isomap k=N-1; anisotropic exact-rank-d configurations with d >= 3 and "
              "retained spectra over up to 10 decades (MDS and linear Kernel PCA); dense, and randomized when rank <= d) + "
              "SCALED COPIES of every end-to-end case that returned an embedding (table times 2^e, e in {-40,-30,-20,20,40}: "
-             "quick tier one down- and one up-scale per case, cycling; thorough all five; the randomized solver only down "
+             "quick tier one down- and one up-scale per case, cycling; thorough three; the randomized solver only down "
              "to the scale where its replayed Gram-Schmidt norms stay above its absolute 1e-4 cut-off, known finding F36, "
              "with a boundary case just above it) + exact stream cases on dyadic tiny/huge scales + randomized step-tie "
              "cases.  non-trivial = end-to-end with N >= 3, matrix stage with N >= 4, a triangle probe or a step tie; "
